@@ -211,8 +211,22 @@ def task_convert(t):
     if pairstride:
         held_sets += [(f, g) for f in fs[::pairstride] for g in fs[1::pairstride]]
     bperms = list(itertools.permutations(allbits))
-    if bit_orders != 'all':
+    if bit_orders == 'rot':
         bperms = [tuple(allbits[r:] + allbits[:r]) for r in range(nb)] + [tuple(reversed(allbits))]
+    if nb >= 5 and bit_orders == 'all':
+        # every initial bit order, with a small family of held functions that depend on the
+        # middle bits of the integer variables
+        X = {b_: U.var(b_) for b_ in allbits}
+        mids = [bits[v][len(bits[v]) // 2] for v in vnames]
+        lows = [bits[v][0] for v in vnames]
+        highs = [bits[v][-1] for v in vnames]
+        fam = [X[mids[0]] ^ X[highs[-1]], X[mids[0]] & X[mids[-1]] | X[lows[0]],
+               (X[lows[0]] ^ X[mids[-1]]) & X[highs[0]]]
+        acc = 0
+        for b_ in allbits:
+            acc ^= X[b_]
+        fam.append(acc)
+        held_sets = [(f,) for f in fam] + [(fam[0], fam[1])]
     iperms = list(itertools.permutations(vnames)) if int_orders == 'all' else [tuple(vnames)]
     for bp in bperms:
         border = {b: i for i, b in enumerate(bp)}
@@ -631,6 +645,8 @@ def plan(tier):
                 ts.append(('conv', sizes, 'all', 'all', 16, 0, None))
             else:
                 ts.append(('conv', sizes, 'rot', 'all', 32, 0, None))
+                ts.append(('conv', sizes, 'all', 'all', 32, 0, None))
+        ts.append(('conv', (3, 3), 'all', 'all', 32, 0, None))
         ts.append(('conv', (2, 1), 'all', 'all', 1, 7, None))
         for perm in itertools.permutations(range(2)):
             for si in range(2):
@@ -645,6 +661,7 @@ def plan(tier):
                 ts.append(('conv', sizes, 'all', 'all', 8, 0, None))
             else:
                 ts.append(('conv', sizes, 'rot', 'all', 8, 0, None))
+                ts.append(('conv', sizes, 'all', 'all', 8, 0, None))
         for perm in itertools.permutations(range(2)):
             for si in range(4):
                 ts.append(('alg', (3, 2), perm, si, 4, 1, None))
